@@ -9,6 +9,7 @@ import (
 	"encoding/json"
 	"fmt"
 	"math/rand"
+	"strings"
 
 	"github.com/hashicorp/nodeenrollment"
 	"github.com/hashicorp/nodeenrollment/registration"
@@ -39,6 +40,7 @@ type gcCase struct {
 	SkipLocal  bool   `json:"skip_verification_by_local_caller"`
 	EmptyNonce bool   `json:"empty_nonce"`
 	PrevKey    bool   `json:"record0_carries_a_previous_certificate_key,omitempty"` // record 0 was created by a rotation and names its predecessor's key, whose own record is gone; signer code -5 = that old key
+	NodeIDForm string `json:"node_id_form,omitempty"`                               // "": the node ID as registered; otherwise a different string that a canonicalising lookup would map onto it
 	PkixBy     *int   `json:"request_key_of,omitempty"`                             // signer code whose key the request names as certificate key (default: the nonce signer's)
 }
 
@@ -63,6 +65,33 @@ func permutations(n int) [][]int {
 	}
 	rec(nil, make([]bool, n))
 	return out
+}
+
+var gcNodeIDForms = []string{"trailing-space", "leading-space", "trailing-tab", "trailing-newline", "upper-lower", "trailing-nul", "doubled"}
+
+// gcNodeIDForm returns a node ID that differs from id but that a lookup which trims, folds or
+// truncates its key would treat as id
+func gcNodeIDForm(id, form string) string {
+	switch form {
+	case "trailing-space":
+		return id + " "
+	case "leading-space":
+		return " " + id
+	case "trailing-tab":
+		return id + "\t"
+	case "trailing-newline":
+		return id + "\n"
+	case "upper-lower":
+		if strings.ToLower(id) != id {
+			return strings.ToLower(id)
+		}
+		return strings.ToUpper(id)
+	case "trailing-nul":
+		return id + "\x00"
+	case "doubled":
+		return id + id
+	}
+	return id
 }
 
 func runGCCase(c *engine.Ctx, gc gcCase) {
@@ -183,7 +212,7 @@ func runGCCase(c *engine.Ctx, gc gcCase) {
 		}
 	}
 	if gc.Path != "keyid" {
-		req.NodeId = "N"
+		req.NodeId = gcNodeIDForm("N", gc.NodeIDForm)
 	}
 	var stateMsg *structpb.Struct
 	if gc.State {
@@ -196,7 +225,9 @@ func runGCCase(c *engine.Ctx, gc gcCase) {
 	// lookup set
 	var lookup []int // record indexes
 	keyLookup := -100
-	if gc.Path == "nodeid" {
+	if gc.Path == "nodeid" && gc.NodeIDForm != "" {
+		// no record is registered under this string
+	} else if gc.Path == "nodeid" {
 		lookup = append(lookup, gc.Order...)
 	} else {
 		// by key ID of the named certificate key
@@ -378,6 +409,12 @@ func runGCLife(c *engine.Ctx, lc gcLife) {
 					nodeID = ids[rng.Intn(len(ids))]
 				}
 			}
+			form := ""
+			if nodeID != "" && rng.Intn(5) == 0 {
+				form = gcNodeIDForms[rng.Intn(len(gcNodeIDForms))]
+			}
+			asked := nodeID
+			nodeID = gcNodeIDForm(nodeID, form)
 			nonce := world.RandBytes(nodeenrollment.NonceSize)
 			req := &types.GenerateServerCertificatesRequest{CertificatePublicKeyPkix: keys.Pkix, Nonce: nonce, NonceSignature: ed25519.Sign(keys.Priv, nonce), NodeId: nodeID}
 			var stateMsg *structpb.Struct
@@ -387,6 +424,10 @@ func runGCLife(c *engine.Ctx, lc gcLife) {
 				req.ClientStateSignature = ed25519.Sign(keys.Priv, req.ClientState)
 			}
 			ok := e != nil && e.present && (nodeID == "" || nodeID == e.nodeID)
+			if form != "" {
+				r.Count("lifecycle_requests_with_near_miss_node_id", 1)
+				_ = asked
+			}
 			var resp *types.GenerateServerCertificatesResponse
 			var gerr error
 			if p, st := engine.Guard(func() { resp, gerr = nodetls.GenerateServerCertificates(s.Ctx, s.Store, req, s.Opts()...) }); p != nil {
@@ -495,6 +536,13 @@ func runGenCerts(c *engine.Ctx) engine.Result {
 				cases = append(cases, gcCase{Path: path, Records: m, Order: ord, NonceBy: 0, State: true, StateBy: -5, PrevKey: true})
 				cases = append(cases, gcCase{Path: path, Records: m, Order: ord, NonceBy: 0, PrevKey: true}) // control: the new key still works
 			}
+		}
+	}
+	// node IDs that are not the registered string but close to it: nothing is registered under them
+	for _, form := range gcNodeIDForms {
+		for _, st := range []bool{false, true} {
+			cases = append(cases, gcCase{Path: "nodeid", Records: 2, Order: []int{0, 1}, NonceBy: 0, State: st, StateBy: 0, NodeIDForm: form})
+			cases = append(cases, gcCase{Path: "nodeid", Records: 1, Order: []int{0}, NonceBy: 0, State: st, StateBy: 0, NodeIDForm: form, Wrap: true})
 		}
 	}
 	// zero records under the node id
